@@ -82,7 +82,7 @@ func c15Config(rt *rapid.T, url string) map[string]any {
 		block[1].(map[string]any)["filter_ref"] = map[string]any{"integration": "refig", "column": "addr"}
 	}
 	main := map[string]any{
-		"name": "mainig", "enabled": true, "sources": []any{map[string]any{"name": "src1", "start": 1}},
+		"name": "mainig", "enabled": rapid.IntRange(0, 3).Draw(rt, "enabled") != 0, "sources": []any{map[string]any{"name": "src1", "start": 1}},
 		"table": table, "filter_agg": "or", "block": block,
 		"event": map[string]any{"name": "Note", "type": "event", "anonymous": false, "inputs": inputs},
 	}
@@ -217,6 +217,9 @@ func c15Lifecycle(conf config.Root, node *sim.Node) (accepted bool, verr error, 
 	clients := map[string]*jrpc2.Client{}
 	var tasks []*shovel.Task
 	for _, ig := range conf.Integrations {
+		if !ig.Enabled {
+			continue // no task, but its table was migrated above
+		}
 		for _, sr := range ig.Sources {
 			var sc *config.Source
 			for i := range conf.Sources {
